@@ -959,6 +959,22 @@ func corpus() []Case {
 			add(Case{Family: fmt.Sprintf("member-single-%d", k), Top: "single", Mods: memberMods()[:1], Ops: ops})
 		}
 	}
+	// a name that is BOTH a member of a TypeSet (types/a.pp: TypeSet A {B, D}) and the name of a definition file of its own
+	// (types/a/b.pp): as an alias A::B, and as a TypeSet A::B {C} whose member A::B::C exists only through that file.
+	// Orders: member first through A / the file's name first / a member of the nested TypeSet first; through the loader
+	// and two child contexts
+	for v, nested := range []FileSpec{good("types/a/b.pp", "A::B", 20), tsFile("types/a/b.pp", "A::B", 20, "C")} {
+		for k, names := range [][]string{
+			{"A", "A::B", "A::B::C", "A::D", "a::b"},
+			{"A::B", "A", "A::B::C", "A::D", "A::B"},
+			{"A::B::C", "A::B", "A", "A::B::C"},
+			{"A::D", "A::B::C", "A::B", "A::B::C"}} {
+			ops := append(loads(-1, names...), loads(0, names...)...)
+			ops = append(ops, loads(1, names...)...)
+			add(Case{Family: fmt.Sprintf("member-and-file-%d-%d", v, k), Top: "single", Mods: []ModSpec{{Dir: "root", Name: "", Files: []FileSpec{
+				tsFile("types/a.pp", "A", 10, "B", "D"), nested}}}, Ops: ops})
+		}
+	}
 	// three loaders in a chain, the TypeSet in the middle one, bad files above and below
 	add(Case{Family: "chain-3", Top: "chain", Mods: []ModSpec{
 		{Dir: "mymod", Name: "mymod", Files: []FileSpec{good("types/foo.pp", "Mymod::Foo", 10, "Other::Set::One", "Top"), good("types/wrong.pp", "Mymod::Other", 20)}},
